@@ -37,6 +37,18 @@ var extOffers = []struct {
 	{[]string{"PERMESSAGE-DEFLATE"}, false},       // extension tokens are compared exactly by this library; not generated as a must-accept
 }
 
+// server announcements in unusual but grammatical spellings, with what they mean
+var extReplies = []struct{ text, means string }{
+	{"permessage-deflate;server_no_context_takeover;client_no_context_takeover", "both"},
+	{"permessage-deflate ; client_no_context_takeover ; server_no_context_takeover", "both"},
+	{"permessage-deflate; server_no_context_takeover; client_no_context_takeover; server_max_window_bits=15", "both"},
+	{"permessage-deflate; server_no_context_takeover; x=\"a\\\"; client_no_context_takeover; y=\"", "server_only"}, // the second parameter name is inside a quoted string
+	{"permessage-deflate; x=\"client_no_context_takeover\"; server_no_context_takeover", "server_only"},
+	{"permessage-deflate; x=\"server_no_context_takeover\"; client_no_context_takeover", "client_only"},
+	{"foo; client_no_context_takeover, permessage-deflate; server_no_context_takeover", "server_only"}, // the parameter belongs to another extension
+	{"permessage-deflate; server_no_context_takeover, bar; client_no_context_takeover", "server_only"},
+}
+
 func genC15(r *PRNG, tier string) *Scenario {
 	switch r.Intn(4) {
 	case 0:
@@ -91,6 +103,11 @@ func genC15Byz(r *PRNG, realIsServer bool) *Scenario {
 		scn.Class = "byzantine-server-reply"
 		if end.Compression {
 			l.PeerComp = r.PickS([]string{"both", "both", "none", "server_only", "client_only"})
+			if r.Chance(1, 3) {
+				// the same meanings in less usual spellings (quoted strings, escapes, other extensions around)
+				t := extReplies[r.Intn(len(extReplies))]
+				l.PeerComp, l.PeerExtReply = t.means, t.text
+			}
 		} else {
 			l.PeerComp = "none"
 		}
